@@ -12,6 +12,8 @@ def main(tier, seed):
     rng = random.Random(seed)
     doms = TG.special_domains(tier, rng)
     jobs = [(TG.w_special, (exe, doms[i:i + 3000], "special")) for i in range(0, len(doms), 3000)]
+    idoms = TG.special_idn_domains(tier, rng)
+    jobs += [(TG.w_special_idn, (exe, idoms[i:i + 1500], "special-idn")) for i in range(0, len(idoms), 1500)]
     for part in core.pmap(_run, jobs):
         rep.merge(part)
     c = rep.counters
